@@ -8,6 +8,7 @@ import (
 	"encoding/json"
 	"errors"
 	"fmt"
+	ebuotel "github.com/jilio/ebu/otel"
 	"math"
 	"reflect"
 	"runtime"
@@ -92,6 +93,11 @@ func mkEvent(kind, id int) any {
 		return invalidJSON{ID: id, F: math.Inf(1)}
 	case 9:
 		return (*ptrMarshal)(nil)
+	case 11:
+		// a map that contains itself: no JSON encoding (cycle), and naive formatting of it never ends
+		m := map[string]any{"n": id}
+		m["self"] = m
+		return flex{ID: id, Payload: m}
 	default:
 		return flex{ID: id, Payload: "lost-ack"}
 	}
@@ -198,9 +204,9 @@ func TestC13Patterns(t *testing.T) {
 			for pos := -1; pos < L; pos++ {
 				ukinds := []int{0}
 				if pos >= 0 {
-					ukinds = []int{2, 3, 4, 5, 6, 7, 8, 9, 10}
+					ukinds = []int{2, 3, 4, 5, 6, 7, 8, 9, 10, 11}
 					if !run.Thorough() && L > 4 {
-						ukinds = []int{2 + (bits+pos)%9}
+						ukinds = []int{2 + (bits+pos)%10}
 					}
 				}
 				for _, uk := range ukinds {
@@ -245,7 +251,7 @@ func runPattern(run *vk.Run, pattern []int, variant int) {
 		case 10:
 			fa[ai] = stores.LostAck
 		}
-		if k <= 1 || k >= 9 {
+		if k <= 1 || k == 9 || k == 10 {
 			ai++
 		}
 		if ehMode == 3 && k != 0 && k != 9 {
@@ -372,7 +378,7 @@ func runPattern(run *vk.Run, pattern []int, variant int) {
 		}
 		prevOps = len(ops)
 		wantAttempts := 0
-		if k <= 1 || k >= 9 {
+		if k <= 1 || k == 9 || k == 10 {
 			wantAttempts = 1
 		}
 		if ehMode == 3 && wantErr == 1 {
@@ -485,11 +491,13 @@ func TestC13Timeouts(t *testing.T) {
 			for _, dl := range deadlines {
 				for _, honour := range []bool{true, false} {
 					for _, seq := range [][]int{{1}, {1, 0}, {0, 1, 0}, {1, 1, 0}} { // 1 = slow append, 0 = instant
-						idx++
-						if !run.Mine(idx) {
-							continue
+						for _, withOTel := range []bool{false, true} {
+							idx++
+							if !run.Mine(idx) {
+								continue
+							}
+							timeoutScenario(t, run, d, to, dl, honour, seq, withOTel)
 						}
-						timeoutScenario(t, run, d, to, dl, honour, seq)
 					}
 				}
 			}
@@ -498,7 +506,7 @@ func TestC13Timeouts(t *testing.T) {
 	run.Exhaustive(true)
 }
 
-func timeoutScenario(t *testing.T, run *vk.Run, delay, timeout, deadline time.Duration, honour bool, seq []int) {
+func timeoutScenario(t *testing.T, run *vk.Run, delay, timeout, deadline time.Duration, honour bool, seq []int, withOTel bool) {
 	synctest.Test(t, func(t *testing.T) {
 		st := &slowStore{inner: ebu.NewMemoryStore(), honourCtx: honour}
 		var errIDs []int
@@ -506,10 +514,19 @@ func timeoutScenario(t *testing.T, run *vk.Run, delay, timeout, deadline time.Du
 		if timeout > 0 {
 			opts = append(opts, ebu.WithPersistenceTimeout(timeout))
 		}
+		if withOTel {
+			// the bundled OpenTelemetry observability (default no-op providers): the contexts it returns
+			// from its start callbacks are the ones the bus carries on with
+			o, err := ebuotel.New()
+			if err != nil {
+				t.Fatal(err)
+			}
+			opts = append(opts, ebu.WithObservability(o))
+		}
 		bus := ebu.New(opts...)
 		handled := 0
 		ebu.Subscribe(bus, func(flex) { handled++ })
-		sig := fmt.Sprintf("delay=%v timeout=%v deadline=%v honour=%v seq=%v", delay, timeout, deadline, honour, seq)
+		sig := fmt.Sprintf("delay=%v timeout=%v deadline=%v honour=%v seq=%v otel=%v", delay, timeout, deadline, honour, seq, withOTel)
 		witness := map[string]any{"scenario": sig}
 		for i, slow := range seq {
 			id := i + 1
@@ -523,6 +540,7 @@ func timeoutScenario(t *testing.T, run *vk.Run, delay, timeout, deadline time.Du
 				ctx, cancel = context.WithTimeout(ctx, deadline)
 			}
 			before := handled
+			t0 := time.Now()
 			func() {
 				defer func() {
 					if r := recover(); r != nil {
@@ -531,7 +549,22 @@ func timeoutScenario(t *testing.T, run *vk.Run, delay, timeout, deadline time.Du
 				}()
 				ebu.PublishContext(bus, ctx, flex{ID: id, Payload: "x"})
 			}()
+			elapsed := time.Since(t0)
 			cancel()
+			if honour {
+				// a store that honours its context gives up at the earliest of: its own delay, the
+				// persistence timeout, the publish context's deadline (virtual time: exact)
+				want := st.delay
+				if timeout > 0 && timeout < want {
+					want = timeout
+				}
+				if deadline > 0 && deadline < want {
+					want = deadline
+				}
+				if elapsed != want {
+					run.Violation("persist:timeout-not-effective", fmt.Sprintf("%s: publish #%d took %v of virtual time on a store that honours its context; its append should have ended after %v", sig, id, elapsed, want), witness)
+				}
+			}
 			// the handler must have run unless the publish context itself expired before dispatch
 			if handled-before != 1 && ctx.Err() == nil {
 				run.Violation("persist:handler-missed-event", fmt.Sprintf("%s: publish #%d did not reach its handler", sig, id), witness)
